@@ -5,8 +5,9 @@ import J1939.Model.Dll22
 import J1939.Lemmas.PyDict
 import J1939.Lemmas.Tactics
 import J1939.Lemmas.Bits
+import J1939.Props.C15
 namespace J1939.Props.C11
-open J1939 J1939.Gen J1939.Dll22 J1939.Bits
+open J1939 J1939.Gen J1939.Dll22 J1939.Bits J1939.Lemmas
 
 /-- legal CAN FD data lengths -/
 def legalFd (n : Nat) : Bool := n ≤ 8 || n == 12 || n == 16 || n == 20 || n == 24 || n == 32 || n == 48 || n == 64
@@ -268,4 +269,368 @@ theorem c11_deadline_served (now k : Nat) (ks : List Nat) (s : St) (nw : Nat) (o
     simp only [hg, this, if_true]
     exact ⟨trivial, by split <;> omega⟩
 
+/-! ### end to end: assembly, wire, reception; conservation through the collection buffers -/
+
+theorem mpg_or : ∀ da, da < 256 → (9472 ||| (da &&& 255)) = 9472 + da := by decide +kernel
+theorem mpg_mask : ∀ da, da < 256 → (9472 + da) &&& 130816 = 9472 := by decide +kernel
+
+/-- the priority of a multi-PG frame: the numerically lowest of its groups, at most 7 -/
+def framePrio (cpgs : List Cpg) : Nat := cpgs.foldl (fun p c => min c.priority p) 7
+
+theorem foldl_min_le (cpgs : List Cpg) (p : Nat) : cpgs.foldl (fun p c => min c.priority p) p ≤ p := by
+  induction cpgs generalizing p with
+  | nil => exact Nat.le_refl _
+  | cons c cs ih => exact Nat.le_trans (ih _) (Nat.min_le_right ..)
+
+theorem framePrio_lt (cpgs : List Cpg) : framePrio cpgs < 8 := by
+  have := foldl_min_le cpgs 7; unfold framePrio; omega
+
+theorem enc_length (cpgs : List Cpg) : (cpgs.flatMap enc).length = packedSize cpgs := by
+  induction cpgs with
+  | nil => rfl
+  | cons c cs ih =>
+    simp only [List.flatMap_cons, List.length_append, ih, packedSize, List.map_cons, List.sum_cons, enc, List.length_cons, List.length_nil]
+
+/-- what the receive path makes of the identifier of an extended multi-PG frame -/
+theorem mpg_id_parse (prio da sa : Nat) (hp : prio < 8) (hda : da < 256) (hsa : sa < 256) :
+    let mid := MessageId.ofCanId (MessageId.can_id (MessageId.ofFields prio (Const.PGN.FEFF_MULTI_PG ||| (da &&& 255)) sa))
+    mid.source_address = sa ∧ mid.priority = prio ∧
+    PGN.from_message_id mid = { data_page := 0, pdu_format := 37, pdu_specific := da } := by
+  intro mid
+  have hv : (Const.PGN.FEFF_MULTI_PG ||| (da &&& 255)) = 9472 + da := mpg_or da hda
+  have hm : mid = { source_address := sa, parameter_group_number := 9472 + da, priority := prio } := by
+    simp only [mid]
+    rw [J1939.Props.C15.c15_id_parse_compose, hv, ofFields_eq]
+    simp only [MessageId.mk.injEq]; refine ⟨?_, ?_, ?_⟩ <;> omega
+  rw [hm]
+  refine ⟨rfl, rfl, ?_⟩
+  rw [pgn_from_mid_eq]
+  simp only [PGN.mk.injEq]; refine ⟨?_, ?_, ?_⟩ <;> omega
+
+/-- the padded payload of a multi-PG frame -/
+def paddedData (cpgs : List Cpg) : List Nat :=
+  let d := cpgs.flatMap enc
+  let p := Py.idx Const.LUT_FD_DLC d.length - d.length
+  d ++ (List.replicate (min p 3) 0 ++ List.replicate (p - 3) 170)
+
+/-- the extended (FEFF) multi-PG frame of a list of groups -/
+def feffFrame (cpgs : List Cpg) (src dst : Nat) : Frame :=
+  { id := MessageId.can_id (MessageId.ofFields (framePrio cpgs) (Const.PGN.FEFF_MULTI_PG ||| (dst &&& 255)) src),
+    ext := true, data := paddedData cpgs, fd := true }
+
+theorem length_le_packed (cpgs : List Cpg) : cpgs.length ≤ packedSize cpgs := by
+  induction cpgs with
+  | nil => simp [packedSize]
+  | cons c cs ih => simp only [packedSize, List.length_cons, List.map_cons, List.sum_cons] at ih ⊢; omega
+
+/-- ASSEMBLY: a list of groups whose packed size fits (the fill invariant) is assembled into exactly `feffFrame` -/
+theorem multiPgFrame_feff (ff src dst : Nat) (cpgs : List Cpg) (hff : ff ≠ Const.FF.FBFF) (hsz : packedSize cpgs ≤ 64) :
+    multiPgFrame ff cpgs src dst = some (feffFrame cpgs src dst) := by
+  have hl := c11_lut
+  have henc : (cpgs.flatMap fun c => [Mpg.hdr0 c.tos c.tf c.cpgn, Mpg.hdr1 c.tos c.tf c.cpgn, Mpg.hdr2 c.tos c.tf c.cpgn, c.data.length] ++ c.data)
+      = cpgs.flatMap enc := rfl
+  have hlen := enc_length cpgs
+  have hffb : (ff == Const.FF.FBFF) = false := by simpa using hff
+  have hlt : ¬ (cpgs.flatMap enc).length ≥ Const.LUT_FD_DLC.length := by rw [hl.1, hlen]; omega
+  unfold multiPgFrame
+  simp only [henc, hlt, if_false, hffb, Bool.false_eq_true]
+  simp only [feffFrame, paddedData, framePrio, List.append_assoc]
+
+/-- RECEPTION of a multi-PG frame by ANY stack (any state, any time) that accepts the destination: the subscribers get
+    exactly the groups — C-PGN and data byte-identical, in order, each once, from the sender's address — and the
+    receiver's state is unchanged -/
+theorem rx_feff (cfg : Cfg) (s : St) (now : Nat) (acc : Nat → Bool) (src dst : Nat) (cpgs : List Cpg)
+    (hc : ∀ c ∈ cpgs, CpgOk c) (hsrc : src < 256) (hdst : dst < 256) (hacc : dst = 255 ∨ acc dst = true) :
+    notify cfg s now acc (feffFrame cpgs src dst).id (feffFrame cpgs src dst).data =
+      { st := s, outs := cpgs.map (fun c => Out.notify (framePrio cpgs) c.cpgn src dst c.data) } := by
+  obtain ⟨p1, p2, p3⟩ := mpg_id_parse (framePrio cpgs) dst src (framePrio_lt cpgs) hdst hsrc
+  have hG : Const.Addr.GLOBAL = 255 := rfl
+  have hacc' : (dst != Const.Addr.GLOBAL && !acc dst) = false := by
+    rcases hacc with hg | ha
+    · simp [hg, hG]
+    · simp [ha]
+  have hnpv : Tp21.notify_pgn_value { data_page := 0, pdu_format := 37, pdu_specific := dst } = Const.PGN.FEFF_MULTI_PG := by
+    have hv : PGN.value { data_page := 0, pdu_format := 37, pdu_specific := dst } = 9472 + dst := by
+      rw [pgn_value_arith _ (by simp only [PGN.WF]; omega)]; simp only
+    rw [Tp21.notify_pgn_value, hv]; exact mpg_mask dst hdst
+  have hp2 : PGN.is_pdu2_format { data_page := 0, pdu_format := 37, pdu_specific := dst } = false := by simp [PGN.is_pdu2_format]
+  have hpad := c11_padding_form (Py.idx Const.LUT_FD_DLC (cpgs.flatMap enc).length - (cpgs.flatMap enc).length)
+  simp only at hpad
+  have hun := c11_unpack_pack (framePrio cpgs) src dst cpgs _ hc hpad ((paddedData cpgs).length + 1)
+    (by
+      have h1 := length_le_packed cpgs
+      have h2 := enc_length cpgs
+      simp only [paddedData, List.length_append]; omega)
+  unfold notify
+  simp only [feffFrame] at p1 p2 p3 ⊢
+  simp only [p1, p2, p3, hp2, hacc', hnpv, Bool.false_eq_true, if_false, beq_self_eq_true, if_true]
+  simp only [paddedData] at hun ⊢
+  rw [hun]
+
+/-- FRAME END TO END: assembly composed with reception -/
+theorem c11_frame_end_to_end (cfg : Cfg) (s : St) (now : Nat) (acc : Nat → Bool) (ff src dst : Nat) (cpgs : List Cpg)
+    (hff : ff ≠ Const.FF.FBFF) (hc : ∀ c ∈ cpgs, CpgOk c) (hsz : packedSize cpgs ≤ 64)
+    (hsrc : src < 256) (hdst : dst < 256) (hacc : dst = 255 ∨ acc dst = true) :
+    ∃ f, multiPgFrame ff cpgs src dst = some f ∧ f.ext = true ∧ f.data.length ≤ 64 ∧
+      notify cfg s now acc f.id f.data =
+        { st := s, outs := cpgs.map (fun c => Out.notify (framePrio cpgs) c.cpgn src dst c.data) } :=
+  ⟨feffFrame cpgs src dst, multiPgFrame_feff ff src dst cpgs hff hsz, rfl,
+    (c11_frame_bounds ff cpgs src dst _ (multiPgFrame_feff ff src dst cpgs hff hsz)).1,
+    rx_feff cfg s now acc src dst cpgs hc hsrc hdst hacc⟩
+
+/-! ### every group exactly once: conservation through the collection buffers -/
+
+/-- all groups waiting in collection buffers -/
+def pending (m : PyDict MpgBuf) : List Cpg := m.flatMap (fun p => p.2.cpgs)
+
+theorem get?_cons (p : Nat × MpgBuf) (d : PyDict MpgBuf) (k : Nat) :
+    PyDict.get? (p :: d) k = if p.1 == k then some p.2 else PyDict.get? d k := by
+  simp only [PyDict.get?, List.find?_cons]
+  split <;> simp_all
+
+theorem pending_set_none (m : PyDict MpgBuf) (k : Nat) (v : MpgBuf) (h : m.get? k = none) :
+    pending (m.set k v) = pending m ++ v.cpgs := by
+  induction m with
+  | nil => simp [PyDict.set, pending]
+  | cons p d ih =>
+    rw [get?_cons] at h
+    by_cases hk : (p.1 == k) = true
+    · simp [hk] at h
+    · simp only [hk, if_false, Bool.false_eq_true] at h
+      simp only [PyDict.set, hk, if_false, Bool.false_eq_true]
+      simp only [pending, List.flatMap_cons, List.append_assoc] at ih ⊢
+      rw [ih h]
+
+theorem pending_set_some (m : PyDict MpgBuf) (k : Nat) (v b : MpgBuf) (h : m.get? k = some b) (c : Cpg) :
+    (pending (m.set k v)).count c + b.cpgs.count c = (pending m).count c + v.cpgs.count c := by
+  induction m with
+  | nil => simp [PyDict.get?] at h
+  | cons p d ih =>
+    rw [get?_cons] at h
+    by_cases hk : (p.1 == k) = true
+    · simp only [hk, if_true, Option.some.injEq] at h
+      simp only [PyDict.set, hk, if_true]
+      simp only [pending, List.flatMap_cons, List.count_append, h]
+      omega
+    · simp only [hk, if_false, Bool.false_eq_true] at h
+      simp only [PyDict.set, hk, if_false, Bool.false_eq_true]
+      have := ih h
+      simp only [pending, List.flatMap_cons, List.count_append] at this ⊢
+      omega
+
+theorem erase_of_not_mem (d : PyDict MpgBuf) (k : Nat) (h : k ∉ d.keys) : d.erase k = d := by
+  induction d with
+  | nil => rfl
+  | cons p d ih =>
+    simp only [PyDict.keys, List.map_cons, List.mem_cons, not_or] at h
+    simp only [PyDict.erase, List.filter_cons]
+    have : (p.1 != k) = true := by simp only [bne_iff_ne, ne_eq]; exact fun e => h.1 e.symm
+    simp only [this, if_true]
+    have := ih (by simpa [PyDict.keys] using h.2)
+    simp only [PyDict.erase] at this
+    rw [this]
+
+theorem pending_erase (m : PyDict MpgBuf) (k : Nat) (b : MpgBuf) (hn : m.keys.Nodup) (h : m.get? k = some b) (c : Cpg) :
+    (pending (m.erase k)).count c + b.cpgs.count c = (pending m).count c := by
+  induction m with
+  | nil => simp [PyDict.get?] at h
+  | cons p d ih =>
+    rw [get?_cons] at h
+    simp only [PyDict.keys, List.map_cons, List.nodup_cons] at hn
+    by_cases hk : (p.1 == k) = true
+    · simp only [hk, if_true, Option.some.injEq] at h
+      have hpk : p.1 = k := by simpa using hk
+      have hnot : k ∉ PyDict.keys d := by rw [← hpk]; exact hn.1
+      have he : PyDict.erase (p :: d) k = d := by
+        have := erase_of_not_mem d k hnot
+        simp only [PyDict.erase, List.filter_cons] at this ⊢
+        have h2 : (p.1 != k) = false := by simp [hpk]
+        simp only [h2, Bool.false_eq_true, if_false]; exact this
+      rw [he]
+      simp only [pending, List.flatMap_cons, List.count_append, h]
+      omega
+    · simp only [hk, if_false, Bool.false_eq_true] at h
+      have h2 : (p.1 != k) = true := by
+        simp only [bne_iff_ne, ne_eq]; intro e; exact hk (by simp [e])
+      have he : PyDict.erase (p :: d) k = p :: PyDict.erase d k := by
+        simp only [PyDict.erase, List.filter_cons, h2, if_true]
+      rw [he]
+      have := ih hn.2 h
+      simp only [pending, List.flatMap_cons, List.count_append] at this ⊢
+      omega
+
+theorem count_single (c cpg : Cpg) : List.count c [cpg] = if c = cpg then 1 else 0 := by
+  by_cases h : c = cpg
+  · subst h; simp
+  · have : cpg ≠ c := fun e => h e.symm
+    simp [h, this]
+
+/-- PLACING CONSERVES: a submission with a time limit (some buffer of the chain has room) adds the group to the waiting
+    groups exactly once and neither loses nor duplicates any other waiting group -/
+theorem c11_place_once (now deadline ff src dst : Nat) (cpg : Cpg) (fuel session : Nat) (m : PyDict MpgBuf) (o : List Out)
+    (hroom : ∃ k, k < fuel ∧ ∀ b, m.get? (Tp22.buffer_hash_mpg ff (session + k) src dst) = some b →
+        b.fill ≤ Const.DL22.TP - cpg.data.length) (c : Cpg) :
+    (pending (mpgPlace now deadline ff src dst cpg fuel session m o).1).count c = (pending m).count c + (if c = cpg then 1 else 0) := by
+  induction fuel generalizing session m o with
+  | zero => obtain ⟨k, hk, _⟩ := hroom; omega
+  | succ fuel ih =>
+    unfold mpgPlace
+    cases hg : m.get? (Tp22.buffer_hash_mpg ff session src dst) with
+    | none =>
+      simp only [hg]
+      rw [pending_set_none _ _ _ hg, List.count_append, count_single]
+    | some b =>
+      simp only [hg]
+      by_cases hfit : b.fill ≤ Const.DL22.TP - cpg.data.length
+      · simp only [hfit, if_true]
+        have := pending_set_some m (Tp22.buffer_hash_mpg ff session src dst)
+          { b with fill := b.fill + 4 + cpg.data.length, deadline := if b.deadline > deadline then deadline else b.deadline, cpgs := b.cpgs ++ [cpg] } b hg c
+        simp only [List.count_append, count_single] at this
+        omega
+      · simp only [hfit, if_false]
+        obtain ⟨k, hk, hkroom⟩ := hroom
+        have hkeep := pending_set_some m (Tp22.buffer_hash_mpg ff session src dst) { b with deadline := now } b hg c
+        simp only at hkeep
+        cases k with
+        | zero => exact absurd (hkroom b (by simpa using hg)) hfit
+        | succ k =>
+          by_cases hsame : Tp22.buffer_hash_mpg ff (session + 1 + k) src dst = Tp22.buffer_hash_mpg ff session src dst
+          · have : session + (k + 1) = session + 1 + k := by omega
+            rw [this, hsame] at hkroom
+            exact absurd (hkroom b hg) hfit
+          · have := ih (session + 1) (m.set (Tp22.buffer_hash_mpg ff session src dst) { b with deadline := now })
+              (o ++ [Out.wake]) ⟨k, by omega, by
+                intro b2 hb2
+                rw [PyDict.get?_set_ne _ _ _ _ hsame] at hb2
+                have : session + (k + 1) = session + 1 + k := by omega
+                rw [this] at hkroom
+                exact hkroom b2 hb2⟩
+            rw [this]; omega
+
+/-- the groups in buffers are as send_pgn creates them -/
+def BufGroupsOk (b : MpgBuf) : Prop := ∀ c ∈ b.cpgs, CpgOk c
+
+theorem c11_groups_inv (now deadline ff src dst : Nat) (cpg : Cpg) (hok : CpgOk cpg) (fuel session : Nat)
+    (m : PyDict MpgBuf) (o : List Out) (h : PyDict.All BufGroupsOk m) :
+    PyDict.All BufGroupsOk (mpgPlace now deadline ff src dst cpg fuel session m o).1 := by
+  induction fuel generalizing session m o with
+  | zero => exact h
+  | succ fuel ih =>
+    unfold mpgPlace
+    cases hg : m.get? (Tp22.buffer_hash_mpg ff session src dst) with
+    | none =>
+      simp only [hg]
+      apply PyDict.all_set _ _ _ _ h
+      intro c hc; simp only [List.mem_singleton] at hc; rw [hc]; exact hok
+    | some b =>
+      have hb := h _ _ hg
+      simp only [hg]
+      split
+      · apply PyDict.all_set _ _ _ _ h
+        intro c hc
+        simp only [List.mem_append, List.mem_singleton] at hc
+        rcases hc with hc | hc
+        · exact hb c hc
+        · rw [hc]; exact hok
+      · apply ih
+        apply PyDict.all_set _ _ _ _ h
+        exact hb
+
+/-- FLUSH END TO END: the job thread finds a due buffer of the extended format under its key: it puts exactly ONE frame
+    on the bus — the frame of all the buffer's groups — removes the buffer (its groups leave the waiting set, nothing
+    else does), and ANY stack that accepts the destination hands its subscribers exactly those groups, byte-identical,
+    in submission order, each once -/
+theorem c11_flush_end_to_end (cfgR : Cfg) (sR : St) (t : Nat) (acc : Nat → Bool)
+    (now counter src dst : Nat) (ks : List Nat) (s : St) (nw : Nat) (o : List Out) (buf : MpgBuf)
+    (hcnt : counter < 256) (hsrc : src < 256) (hdst : dst < 256)
+    (hg : s.mpg.get? (Tp22.buffer_hash_mpg Const.FF.FEFF counter src dst) = some buf)
+    (hok : BufOk buf) (hgr : BufGroupsOk buf) (hn : s.mpg.keys.Nodup) (hdue : buf.deadline ≤ now)
+    (hacc : dst = 255 ∨ acc dst = true) :
+    let k := Tp22.buffer_hash_mpg Const.FF.FEFF counter src dst
+    tickMpg now (k :: ks) s nw o =
+      tickMpg now ks { s with mpg := s.mpg.erase k } nw (o ++ [.tx (feffFrame buf.cpgs src dst)]) ∧
+    (∀ c, (pending (s.mpg.erase k)).count c + buf.cpgs.count c = (pending s.mpg).count c) ∧
+    notify cfgR sR t acc (feffFrame buf.cpgs src dst).id (feffFrame buf.cpgs src dst).data =
+      { st := sR, outs := buf.cpgs.map (fun c => Out.notify (framePrio buf.cpgs) c.cpgn src dst c.data) } := by
+  intro k
+  have hkey : Tp22.buffer_unhash_mpg k = (Const.FF.FEFF, counter, src, dst) := by
+    simp only [k]; rw [c11_key_separates]
+    simp only [Prod.mk.injEq]
+    refine ⟨by decide, ?_, ?_, ?_⟩ <;> omega
+  have hfr : multiPgFrame (Tp22.buffer_unhash_mpg k).1 buf.cpgs (Tp22.buffer_unhash_mpg k).2.2.1 (Tp22.buffer_unhash_mpg k).2.2.2
+      = some (feffFrame buf.cpgs src dst) := by
+    have hne : Const.FF.FEFF ≠ Const.FF.FBFF := by decide
+    simp only [hkey]
+    exact multiPgFrame_feff Const.FF.FEFF src dst buf.cpgs hne (by rw [← hok.1]; exact hok.2.1)
+  refine ⟨(c11_deadline_served now k ks s nw o buf hg).1 hdue _ hfr, fun c => pending_erase s.mpg k buf hn hg c, ?_⟩
+  exact rx_feff cfgR sR t acc src dst buf.cpgs hgr hsrc hdst hacc
+
+/-- IMMEDIATE SEND END TO END: `send_pgn` without a time limit for any parameter group of 1..60 bytes on the extended
+    format puts exactly one frame on the bus, keeps no state, and ANY stack accepting the destination hands its
+    subscribers exactly one notification with the group's C-PGN, the sender's address and byte-identical data -/
+theorem c11_immediate_end_to_end (cfg cfgR : Cfg) (s sR : St) (now t : Nat) (acc : Nat → Bool)
+    (dp pf ps prio sa : Nat) (data : List Nat) (h1 : 1 ≤ data.length) (h60 : data.length ≤ 60)
+    (hsa : sa < 256) (hps : ps < 256)
+    (hacc : PGN.is_pdu1_format (PGN.ofFields dp pf ps) = true → (ps = 255 ∨ acc ps = true)) :
+    let pgn := PGN.ofFields dp pf ps
+    let dst := if PGN.is_pdu1_format pgn then ps else 255
+    let cpgn := (if PGN.is_pdu1_format pgn then Mpg.cpgn_pdu1 pgn else PGN.value pgn) &&& 262143
+    ∃ f, sendPgn cfg s now dp pf ps prio sa data 0 Const.FF.FEFF = ({ st := s, outs := [.tx f] }, true) ∧
+      f.data.length ≤ 64 ∧
+      notify cfgR sR t acc f.id f.data = { st := sR, outs := [.notify (prio &&& 7) cpgn sa dst data] } := by
+  intro pgn dst cpgn
+  have hne : Const.FF.FEFF ≠ Const.FF.FBFF := by decide
+  have hffb : (Const.FF.FEFF == Const.FF.FBFF) = false := by decide
+  have hlen : data.length ≤ Const.DL22.TP := by simpa [show Const.DL22.TP = 60 from rfl] using h60
+  let cpg : Cpg := { priority := prio &&& 7, tos := 2, tf := 0, cpgn := cpgn, data := data }
+  have hok : ∀ c ∈ [cpg], CpgOk c := by
+    intro c hc; simp only [List.mem_singleton] at hc; subst hc
+    refine ⟨rfl, rfl, ?_, h1, h60⟩
+    simp only [cpg, cpgn, and_262143]; omega
+  have hsz : packedSize [cpg] ≤ 64 := by simp only [packedSize, List.map_cons, List.map_nil, List.sum_cons, List.sum_nil, cpg]; omega
+  have hprio : framePrio [cpg] = prio &&& 7 := by
+    simp only [framePrio, List.foldl_cons, List.foldl_nil, cpg, and_7]; omega
+  have hdst : dst < 256 := by simp only [dst]; split <;> omega
+  have hacc' : dst = 255 ∨ acc dst = true := by
+    simp only [dst]
+    by_cases hp : PGN.is_pdu1_format pgn = true
+    · simp only [hp, if_true]; exact hacc hp
+    · simp [hp]
+  have hfr := multiPgFrame_feff Const.FF.FEFF sa dst [cpg] hne hsz
+  have hrx := rx_feff cfgR sR t acc sa dst [cpg] hok hsa hdst hacc'
+  rw [hprio] at hrx
+  refine ⟨feffFrame [cpg] sa dst, ?_, (c11_frame_bounds _ _ _ _ _ hfr).1, hrx⟩
+  unfold sendPgn
+  simp only [hlen, if_true, hffb, Bool.false_and, Bool.false_eq_true, if_false, beq_self_eq_true]
+  by_cases hp : PGN.is_pdu1_format (PGN.ofFields dp pf ps) = true
+  · simp only [hp, if_true]
+    have : multiPgFrame Const.FF.FEFF [{ priority := prio &&& 7, tos := 2, tf := 0, cpgn := Mpg.cpgn_pdu1 (PGN.ofFields dp pf ps) &&& 262143, data := data }] sa ps
+        = some (feffFrame [cpg] sa dst) := by
+      have hd : dst = ps := by simp only [dst, pgn, hp, if_true]
+      have hc : cpgn = Mpg.cpgn_pdu1 (PGN.ofFields dp pf ps) &&& 262143 := by simp only [cpgn, pgn, hp, if_true]
+      have e : ({ priority := prio &&& 7, tos := 2, tf := 0, cpgn := Mpg.cpgn_pdu1 (PGN.ofFields dp pf ps) &&& 262143, data := data } : Cpg) = cpg := by
+        simp only [cpg, hc]
+      rw [e, ← hd]; exact hfr
+    simp only [this]
+  · simp only [hp, if_false, Bool.false_eq_true]
+    have : multiPgFrame Const.FF.FEFF [{ priority := prio &&& 7, tos := 2, tf := 0, cpgn := PGN.value (PGN.ofFields dp pf ps) &&& 262143, data := data }] sa Const.Addr.GLOBAL
+        = some (feffFrame [cpg] sa dst) := by
+      have hd : dst = Const.Addr.GLOBAL := by simp only [dst, pgn, hp, if_false, Bool.false_eq_true]; rfl
+      have hc : cpgn = PGN.value (PGN.ofFields dp pf ps) &&& 262143 := by simp only [cpgn, pgn, hp, if_false, Bool.false_eq_true]
+      have e : ({ priority := prio &&& 7, tos := 2, tf := 0, cpgn := PGN.value (PGN.ofFields dp pf ps) &&& 262143, data := data } : Cpg) = cpg := by
+        simp only [cpg, hc]
+      rw [e, ← hd]; exact hfr
+    simp only [this]
+
+/-- the premises are satisfiable: three groups of 8, 20 and 24 bytes fit one frame (4·3 + 52 = 64) and are well formed -/
+example :
+    let cs : List Cpg := [{ priority := 6, tos := 2, tf := 0, cpgn := 65226, data := List.replicate 8 1 },
+                          { priority := 3, tos := 2, tf := 0, cpgn := 61444, data := List.replicate 20 2 },
+                          { priority := 7, tos := 2, tf := 0, cpgn := 256, data := List.replicate 24 3 }]
+    (∀ c ∈ cs, CpgOk c) ∧ packedSize cs = 64 ∧ framePrio cs = 3 ∧ (feffFrame cs 128 255).data.length = 64 := by
+  intro cs
+  refine ⟨?_, by decide +kernel, by decide +kernel, by decide +kernel⟩
+  intro c hc
+  simp only [cs, List.mem_cons, List.not_mem_nil, or_false] at hc
+  rcases hc with rfl | rfl | rfl <;> simp [CpgOk]
 end J1939.Props.C11
